@@ -11,6 +11,14 @@ Theorem C07_source_facts :
 Proof. repeat split; reflexivity. Qed.
 Print Assumptions C07_source_facts.
 
+(* "each on their own server port": the model keys transfers by distinct TIDs; what makes the
+   operating system deliver a transfer's datagrams to ITS socket is that the sub-server binds an
+   ephemeral port without SO_REUSEADDR / SO_REUSEPORT (fact regenerated from tftpd.py; the port
+   choice itself is the kernel's and is observed by the own-ports tier of the check) *)
+Theorem C07_private_port : subserver_binds_private_port = true.
+Proof. reflexivity. Qed.
+Print Assumptions C07_private_port.
+
 (* anything addressed to transfer a leaves every other transfer untouched *)
 Theorem C07_step_frame : forall reg a e b, a <> b -> reg_get b (gstep reg (a, e)) = reg_get b reg.
 Proof. exact step_frame. Qed.
